@@ -311,8 +311,10 @@ func childC05(args []string) {
 			out.class("cancel|" + c.Form + "|pre=" + strconv.FormatBool(pre))
 			select {
 			case err := <-done:
-				if err != nil {
-					out.violation(sig+":non-nil-error", fmt.Sprintf("returned %v after cancellation", err), wit)
+				// The statement does not fix the return value under cancellation;
+				// only an error that claims a failed write would be wrong here.
+				if err != nil && strings.Contains(err.Error(), "failed to write event") {
+					out.violation(sig+":write-error-reported-without-write-failure", fmt.Sprintf("returned %v after cancellation", err), wit)
 				}
 			case <-time.After(30 * time.Second):
 				stuck, why := classifyStacks(vlib.AllStacks(), "sshd.process")
